@@ -8,7 +8,10 @@
      s_nonce  [a]       nonce                             (new: stateContract.Nonce)
      s_dh     [a]       deployment height                 (new: stateContract.DeployedHeight)
      s_store  [a;k]     non-zero storage leaves           (tries delete zero leaves)
-     s_decl   [h]       class h -> block it was declared at (DeclaredClassDefinition.At)
+     s_decl   [h]       class h -> block it was declared at (DeclaredClassDefinition.At): EVERY class definition
+                        delivered with a block is registered (putClass / dirtyClasses, first writer wins) - the
+                        classes the block declares AND the definitions the synchroniser fetched for the class
+                        hashes of the block's deployed contracts (sync/data_source.go fetchUnknownClasses)
      s_lstore [a;k;b]   storage history   } NEW   : value AFTER block b   (core/state/state.go writeHistory)
      s_lnonce [a;b]     nonce history     } LEGACY: value BEFORE block b  (deprecatedstate updateContracts,
      s_lclass [a;b]     class-hash history}          onValueChanged)
@@ -138,8 +141,12 @@ Record diff := mkDiff {
   d_replace : list (N * N);          (* address, class hash *)
   d_nonce   : list (N * N);          (* address, nonce *)
   d_store   : list ((N * N) * N);    (* (address, slot), value *)
-  d_decl    : list N                 (* declared class hashes (Cairo0 and Sierra definitions) *)
+  d_decl    : list N;                (* declared class hashes (Cairo0 and Sierra definitions) *)
+  d_deliv   : list N                 (* class hashes whose (Cairo0) definition is DELIVERED with the block for its
+                                        deployed contracts without being declared by it *)
 }.
+(* the classes a block registers: Update walks the one map of delivered definitions *)
+Definition d_reg (d : diff) : list N := d_decl d ++ d_deliv d.
 
 Record st := mkSt {
   s_next   : N;          (* number of stored blocks; the chain height key holds s_next-1 *)
@@ -161,7 +168,7 @@ Definition foldd {A M} (f : A -> M -> M) (l : list A) (m : M) : M := fold_right 
 
 (* ----- the part of Update both backends share: head buckets ----- *)
 Definition upd_decl (n : N) (d : diff) (m : smap N) : smap N :=
-  foldd (fun h m => match get m [h] with Some _ => m | None => put [h] n m end) (d_decl d) m.
+  foldd (fun h m => match get m [h] with Some _ => m | None => put [h] n m end) (d_reg d) m.
 Definition upd_class (d : diff) (m : smap N) : smap N :=
   foldd (fun e m => put [fst e] (snd e) m) (d_replace d)
     (foldd (fun e m => put [fst e] (snd e) m) (d_deploy d) m).
@@ -189,7 +196,7 @@ Definition sys_missing (cls : smap N) (d : diff) : list N :=
 Definition sys_new (cls : smap N) (d : diff) : list (N * N) := map (fun a => (a, 0)) (sys_missing cls d).
 (* the diff as the head buckets see it: the created system contracts count as deployments *)
 Definition with_sys (cls : smap N) (d : diff) : diff :=
-  mkDiff (sys_new cls d ++ d_deploy d) (d_replace d) (d_nonce d) (d_store d) (d_decl d).
+  mkDiff (sys_new cls d ++ d_deploy d) (d_replace d) (d_nonce d) (d_store d) (d_decl d) (d_deliv d).
 
 (* ---------- NEW backend ---------- *)
 (* State.Update ... writeHistory: post values at (prefix, block); replaced classes first, then
@@ -227,13 +234,39 @@ Fixpoint rm_decl (n : N) (l : list N) (m : smap N) : option (smap N) :=
       end
   end.
 
+(* removal of the classes registered with the reverted block for its deployed contracts (juno commit 007ff78;
+   core/deprecatedstate removeDeployedContractClasses, core/state Revert second loop): for the class hash of EVERY
+   deployed contract of the block, a missing record is skipped (db.ErrKeyNotFound -> continue), a record is deleted
+   iff At = block number; no class-trie write.  The legacy backend deletes at once (a second visit of the same hash
+   finds no record); the new backend collects the hashes in dirtyClasses, reading the unchanged database, skips a
+   hash already collected, and deletes at flush: the same map. *)
+Fixpoint rm_deliv (n : N) (l : list N) (m : smap N) : smap N :=
+  match l with
+  | [] => m
+  | h :: r =>
+      rm_deliv n r (match get m [h] with
+                    | Some a => if a =? n then del [h] m else m
+                    | None => m
+                    end)
+  end.
+
+(* Revert's class part: declared lists first, then the class hashes of the deployed contracts *)
+Definition rm_classes (n : N) (d : diff) (m : smap N) : option (smap N) :=
+  match rm_decl n (d_decl d) m with
+  | None => None
+  | Some m' => Some (rm_deliv n (map snd (d_deploy d)) m')
+  end.
+(* ... as it was before juno commit 007ff78: the declared lists only.  Used by no theorem; kept for the witness
+   C04_revert_before_fix_refuted (a class delivered for a deployed contract survived RevertHead). *)
+Definition rm_classes_before_007ff78 (n : N) (d : diff) (m : smap N) : option (smap N) := rm_decl n (d_decl d) m.
+
 (* GetReverseStateDiff of the new backend: values at n-1, zero for block 0 *)
 Definition rev_val_new (m : smap N) (p : key) (n : N) : N := if n =? 0 then 0 else hist_new m p (n - 1).
 
-Definition revert_new (s : st) (d : diff) : option st :=
+Definition revert_new_with (rmc : N -> diff -> smap N -> option (smap N)) (s : st) (d : diff) : option st :=
   if s_next s =? 0 then None else
   let n := s_next s - 1 in
-  match rm_decl n (d_decl d) (s_decl s) with
+  match rmc n d (s_decl s) with
   | None => None
   | Some decl' =>
       let r_store := map (fun e => (fst e, rev_val_new (s_lstore s) [fst (fst e); snd (fst e)] n)) (d_store d) in
@@ -265,6 +298,8 @@ Definition revert_new (s : st) (d : diff) : option st :=
         (foldd (fun e m => del [fst e; n] m) (d_deploy d)
            (foldd (fun e m => del [fst e; n] m) (d_replace d) (s_lclass s))))
   end.
+Definition revert_new : st -> diff -> option st := revert_new_with rm_classes.
+Definition revert_new_before_007ff78 : st -> diff -> option st := revert_new_with rm_classes_before_007ff78.
 
 (* ---------- LEGACY backend ---------- *)
 (* Update: old values are logged at the changing block.  Replaced classes and nonces always log
@@ -302,10 +337,10 @@ Fixpoint map_opt {A B} (f : A -> option B) (l : list A) : option (list B) :=
   | x :: r => match f x, map_opt f r with Some y, Some r' => Some (y :: r') | _, _ => None end
   end.
 
-Definition revert_old (s : st) (d : diff) : option st :=
+Definition revert_old_with (rmc : N -> diff -> smap N -> option (smap N)) (s : st) (d : diff) : option st :=
   if s_next s =? 0 then None else
   let n := s_next s - 1 in
-  match rm_decl n (d_decl d) (s_decl s) with
+  match rmc n d (s_decl s) with
   | None => None
   | Some decl' =>
     let r_store := map (fun e => (fst e, rev_store_old s [fst (fst e); snd (fst e)] n)) (d_store d) in
@@ -344,6 +379,8 @@ Definition revert_old (s : st) (d : diff) : option st :=
     | _, _ => None
     end
   end.
+Definition revert_old : st -> diff -> option st := revert_old_with rm_classes.
+Definition revert_old_before_007ff78 : st -> diff -> option st := revert_old_with rm_classes_before_007ff78.
 
 (* ---------- queries ---------- *)
 Inductive query := QClass (a : N) | QNonce (a : N) | QSlot (a k : N) | QDecl (h : N).
@@ -440,7 +477,7 @@ Definition apply_diff (a : astate) (n : N) (d : diff) : astate :=
                  match assoc (d_nonce d) x with Some v => v | None => nn end)
        end)
     (fun x k => match assoc2 (d_store d) x k with Some v => v | None => a_slot a x k end)
-    (fun h => match a_decl a h with Some b => Some b | None => if mem (d_decl d) h then Some n else None end)
+    (fun h => match a_decl a h with Some b => Some b | None => if mem (d_reg d) h then Some n else None end)
     (map fst (filter (fun e => is_sys (fst (fst e))) (d_store d)) ++ a_sysk a).
 
 Definition sys_exists (a : astate) (x : N) : bool :=
@@ -479,7 +516,13 @@ Definition is_deployed (s : st) (d : diff) (a : N) : bool :=
   match get (s_class s) [a] with Some _ => true | None => mem (map fst (d_deploy d)) a end.
 
 (* System contracts are never deployed, replaced or given a nonce by a state diff (they are not accounts
-   and have no class); a storage entry may name them whether they exist or not. *)
+   and have no class); a storage entry may name them whether they exist or not.
+   Delivered classes: a definition that comes with the block without being declared by it is the class of one of
+   the block's own deployed contracts (that is the only reason the synchroniser fetches one:
+   sync/data_source.go fetchUnknownClasses walks DeployedContracts and the declared lists), listed once. *)
+Definition deliv_ok (d : diff) : bool :=
+  nodupk (map (fun h => [h]) (d_deliv d)) &&
+  forallb (fun h => mem (map snd (d_deploy d)) h && negb (mem (d_decl d) h)) (d_deliv d).
 Definition valid_diffb (s : st) (d : diff) : bool :=
   nodupk (map (fun e => [fst e]) (d_deploy d)) &&
   nodupk (map (fun e => [fst e]) (d_replace d)) &&
@@ -490,7 +533,8 @@ Definition valid_diffb (s : st) (d : diff) : bool :=
   (* a class replacement targets a contract that existed before the block *)
   forallb (fun e => negb (is_sys (fst e)) && present (s_class s) (fst e)) (d_replace d) &&
   forallb (fun e => negb (is_sys (fst e)) && is_deployed s d (fst e)) (d_nonce d) &&
-  forallb (fun e => is_sys (fst (fst e)) || is_deployed s d (fst (fst e))) (d_store d).
+  forallb (fun e => is_sys (fst (fst e)) || is_deployed s d (fst (fst e))) (d_store d) &&
+  deliv_ok d.
 
 (* the diff leaves every system contract it writes to with a non-empty storage.  Chains of such diffs are
    the ones for which both backends answer every read correctly (C03_new / C03_old); a diff that EMPTIES a
@@ -511,7 +555,7 @@ Definition step (store : st -> diff -> st) (revert : st -> diff -> option st)
                 (c : st * list diff) (o : op) : st * list diff :=
   let (s, rc) := c in
   match o with
-  | Store d => if valid_diffb s d then (store s d, d :: rc) else c   (* juno rejects it: nothing changes *)
+  | Store d => if valid_diffb s d then (store s d, d :: rc) else c   (* not a block the node is given / juno rejects it: nothing changes *)
   | Revert =>
       match rc with
       | [] => c
